@@ -6,6 +6,22 @@ tree over `+` (every grouping, every order, leaves with repetition) with <= 3 (q
 used for constructing the leaves and for executing the additions, for CorrelationFunction
 and SpectralDensity.  Oracle: ledger of leaves (data and declared reorganisation energies of
 the individually built components).
+
+Construction-context dimension (added for the class "a component's data depend on the units
+context it was CONSTRUCTED in"): every leaf carries its own construction unit; the product
+(component ftype x construction unit x role in the expression) is complete:
+  * 1 and 2 leaves (x, x+y, x+=y, x+=x): complete per-leaf product  (ftype x unit)^n,
+  * 3 leaves: every uniform unit and every rotation of the unit list (a Latin square: every
+    leaf position sees every unit, next to every combination of ftypes at the other positions);
+    thorough: the complete per-leaf product over the first three units as well,
+  * 4 leaves (thorough, core alphabet): uniform + rotations,
+over ALL component ftypes that CorrelationFunction / SpectralDensity can build from parameters
+(OverdampedBrownian, -HighTemperature, UnderdampedBrownian, Underdamped, B777, CP29).  A role
+decides whether the component is used as constructed (right operand, in-place target) or is
+re-generated from its parameter list (left operand of +, x+=x, copy()), so additivity is
+evaluated both ways.  Three ledgers: (1) the operands' data AS CONSTRUCTED in the case (the
+literal statement), (2) the same components built separately inside energy_units('1/cm'),
+(3) per leaf, the component built in internal units from the converted parameters.
 """
 import itertools
 
@@ -24,14 +40,54 @@ CF_LEAVES = {
     "c": dict(ftype="OverdampedBrownian", reorg=10.0, cortime=30.0, T=300.0),
     "v": "value-defined",
     "d": dict(ftype="OverdampedBrownian-HighTemperature", reorg=35.0, cortime=100.0, T=77.0),
+    # components generated through a helper SpectralDensity
+    "u": dict(ftype="UnderdampedBrownian", reorg=25.0, gamma=40.0, freq=400.0, T=300.0),
+    "w": dict(ftype="Underdamped", reorg=15.0, gamma=30.0, freq=500.0, T=300.0),
+    # probed only (see OPTIONAL)
+    "x": dict(ftype="B777", reorg=102.0, gamma=30.0, T=300.0, alternative_form=False),
+    "y": dict(ftype="B777", reorg=102.0, gamma=30.0, T=300.0, alternative_form=True),
+    "z": dict(ftype="CP29", reorg=50.0, gamma=30.0, T=300.0),
+    "o": dict(ftype="OverdampedBrownian_from_Specdens", reorg=20.0, cortime=50.0, T=300.0),
 }
 SD_LEAVES = {
     "a": dict(ftype="OverdampedBrownian", reorg=20.0, cortime=50.0, T=300.0),
     "b": dict(ftype="UnderdampedBrownian", reorg=35.0, gamma=30.0, freq=300.0, T=300.0),
     "c": dict(ftype="OverdampedBrownian", reorg=10.0, cortime=30.0, T=300.0),
+    "w": dict(ftype="Underdamped", reorg=15.0, gamma=30.0, freq=500.0, T=300.0),
+    "p": dict(ftype="B777", reorg=102.0, gamma=30.0, T=300.0, alternative_form=True),
+    "q": dict(ftype="CP29", reorg=50.0, gamma=30.0, T=300.0),
+    # probed only (see OPTIONAL)
+    "x": dict(ftype="B777", reorg=102.0, gamma=30.0, T=300.0, alternative_form=False),
+    "o": dict(ftype="OverdampedBrownian_from_Specdens", reorg=20.0, cortime=50.0, T=300.0),
+    "h": dict(ftype="OverdampedBrownian-HighTemperature", reorg=35.0, cortime=100.0, T=300.0),
 }
 ENERGY_KEYS = ("reorg", "freq", "gamma")
 NT, DT = 1500, 1.0
+
+# Alphabets.  CORE: the leaves the driver has always enumerated (+ UnderdampedBrownian for the
+# correlation function); they go up to the maximal number of leaves.  EXT: the remaining ftypes
+# that can be built from parameters (up to 3 leaves).  OPTIONAL: (class, ftype-variant)
+# combinations which the library lists in `allowed_types` but cannot construct at all on the
+# reference tree (CorrelationFunction B777/CP29: AttributeError 'energy_units';
+# SpectralDensity B777 Renger form: numpy.math; no dispatch branch for
+# OverdampedBrownian_from_Specdens / SpectralDensity -HighTemperature).  A component that cannot
+# be built has no data to add: nothing of C09 applies.  They are probed (x, x+x, x+=x in every
+# construction unit); as soon as one can be built in internal units on the tree under test it
+# joins the alphabet up to two leaves and all oracles apply to it.
+CORE = {"cf": ["a", "b", "c", "v", "u"], "sd": ["a", "b", "c"]}
+EXT = {"cf": ["w"], "sd": ["w", "p", "q"]}
+OPTIONAL = {"cf": ["x", "y", "z", "o"], "sd": ["x", "o", "h"]}
+UNITS = {"quick": ["int", "1/cm", "eV"], "thorough": ["int", "1/cm", "eV", "THz"]}
+LEGACY_PATTERNS = {"int": ["int"], "1/cm": ["1/cm"], "eV": ["eV"], "mixed": ["1/cm", "eV", "int"]}
+
+
+def spec_of(cls, name):
+    return (CF_LEAVES if cls == "cf" else SD_LEAVES)[name]
+
+
+def ftype_of(cls, name):
+    sp = spec_of(cls, name)
+    return sp["ftype"] if isinstance(sp, dict) else "Value-defined"
 
 
 def _conv(val, unit):
@@ -67,6 +123,73 @@ def make_leaf(cls, name, unit, ta):
             return qr.SpectralDensity(ta, p)
 
 
+class Comp(object):
+    """Record of a separately built component (ledger entry)."""
+
+    def __init__(self, f):
+        self.data = numpy.array(f.data, copy=True)
+        self.lamb = float(f.lamb)
+        self.temperature = float(getattr(f, "temperature", -1.0))
+        self.params = [dict(p) for p in f.params]
+
+
+_LEDGER = {}
+
+
+def ledger(cls, name, unit, ta):
+    """The component `name` built on its own inside energy_units(unit).  Construction is a
+    deterministic function of (class, parameters, unit) on the fixed time axis, so the record
+    is kept per worker process (records are never handed to the library)."""
+    key = (cls, name, unit)
+    if key not in _LEDGER:
+        _LEDGER[key] = Comp(make_leaf(cls, name, unit, ta))
+    return _LEDGER[key]
+
+
+def check_leaf(cls, name, unit, f, ta, viol):
+    """Construction-context independence of one component.
+
+    Why this follows from the property statement (and is not an extra demand): the statement
+    quantifies over "all unit contexts used for construction" and requires x + x, x += x to
+    have twice x's data.  The library stores the parameter list in internal units and
+    regenerates the left operand / the self-operand from that list inside
+    energy_units('int'); hence  regenerated(x).data + x.data == 2 x.data,  i.e. the component
+    as constructed inside energy_units(U) from parameters given in U must have the data of the
+    component built in internal units from the stored parameters - and the stored parameters
+    must be the conversions of the declared ones ("carry consistent parameters"; for the
+    reorganisation energy that is the existing declared-energy check).  The ledger the driver
+    has always used (components built in 1/cm, leaves in 1/cm / eV / internal) presupposes
+    exactly the same."""
+    ft = ftype_of(cls, name)
+    tag = "%s/%s/built-in-%s" % (cls, ft, unit)
+    ref = ledger(cls, name, "int", ta)
+    ok, err = approx(f.data, ref.data, TOL)
+    if not ok:
+        viol.append(("component-data-depend-on-construction-context/" + tag,
+                     "%s component %r built from parameters in %s inside energy_units(%r) "
+                     "differs from the one built in internal units from the converted "
+                     "parameters by %g (scale %g)"
+                     % (cls, name, unit, unit, err, float(numpy.max(numpy.abs(ref.data)))),
+                     {"err": err}))
+    if abs(float(f.lamb) - ref.lamb) > 1e-12 * abs(ref.lamb):
+        viol.append(("component-reorganisation-energy-depends-on-construction-context/" + tag,
+                     "lamb %r, built in internal units %r" % (float(f.lamb), ref.lamb), None))
+    spec = spec_of(cls, name)
+    decl = dict(reorg=15.0) if not isinstance(spec, dict) else spec
+    if len(f.params) != 1:
+        viol.append(("component-parameter-list-length/" + tag,
+                     "%d parameter sets recorded for a single component" % len(f.params), None))
+    else:
+        for k in ENERGY_KEYS:
+            if k in decl:
+                want = _conv(decl[k], "int")
+                got = f.params[0].get(k)
+                if got is None or abs(float(got) - want) > 1e-12 * abs(want):
+                    viol.append(("component-parameters-not-in-internal-units/%s/%s" % (tag, k),
+                                 "recorded %s = %r, declared value in internal units %r"
+                                 % (k, got, want), None))
+
+
 def _snap(f):
     return (numpy.array(f.data, copy=True), float(f.lamb), len(f.params),
             float(getattr(f, "temperature", -1.0)))
@@ -83,6 +206,11 @@ def leaves_of(tree):
     return leaves_of(tree[1]) + leaves_of(tree[2])
 
 
+def built_leaves(tree):
+    """Leaves in the order they are constructed ('self' constructs nothing)."""
+    return [x for x in leaves_of(tree) if x != "self"]
+
+
 def has(tree, leaf):
     return leaf in leaves_of(tree)
 
@@ -91,17 +219,25 @@ class Refused(Exception):
     pass
 
 
-def build(cls, tree, unit_of, ta, addctx, viol, counter):
+def build(cls, tree, unit_of, ta, addctx, viol, counter, made):
     """Evaluate the expression on real objects.  Every `+` is executed inside the addition
-    context; operands are checked for being unchanged."""
+    context; operands are checked for being unchanged.  `made` collects, per constructed leaf,
+    (name, unit, data as constructed, lamb as constructed).  Returns (object, multiset of
+    indices into `made` the object is the sum of)."""
     qr = isolation.qr()
     if isinstance(tree, str):
         i = counter[0]
         counter[0] += 1
-        return make_leaf(cls, tree, unit_of(i), ta)
+        f = make_leaf(cls, tree, unit_of(i), ta)
+        made.append((tree, unit_of(i), numpy.array(f.data, copy=True), float(f.lamb)))
+        check_leaf(cls, tree, unit_of(i), f, ta, viol)
+        return f, [i]
     op, l, r = tree
-    L = build(cls, l, unit_of, ta, addctx, viol, counter)
-    R = L if (op == "+=" and r == "self") else build(cls, r, unit_of, ta, addctx, viol, counter)
+    L, il = build(cls, l, unit_of, ta, addctx, viol, counter, made)
+    if op == "+=" and r == "self":
+        R, ir = L, list(il)
+    else:
+        R, ir = build(cls, r, unit_of, ta, addctx, viol, counter, made)
     sl, sr = _snap(L), _snap(R)
     cm = qr.energy_units(addctx) if addctx else None
     if cm:
@@ -130,7 +266,7 @@ def build(cls, tree, unit_of, ta, addctx, viol, counter):
     if R is not L and not _same(R, sr):
         viol.append(("addition-changed-right-operand/%s/%s" % (cls, op),
                      "%s changed its right operand" % op, None))
-    return out
+    return out, il + ir
 
 
 def tree_str(t):
@@ -139,85 +275,141 @@ def tree_str(t):
     return "(%s%s%s)" % (tree_str(t[1]), t[0], tree_str(t[2]) if t[2] != "self" else "<self>")
 
 
+def leaf_units(case, n):
+    """Construction unit of every built leaf: an explicit list, or a legacy pattern name."""
+    uni = case["leaf_units"]
+    pat = LEGACY_PATTERNS[uni] if isinstance(uni, str) else list(uni)
+    return [pat[i % len(pat)] for i in range(n)]
+
+
 def eval_case(case):
     qr = isolation.qr()
-    cls, tree, uni, addctx = case["cls"], case["tree"], case["leaf_units"], case["add_ctx"]
+    cls, tree, addctx = case["cls"], case["tree"], case["add_ctx"]
     ta = qr.TimeAxis(0.0, NT, DT)
     viol = []
-    units = {"int": ["int"], "1/cm": ["1/cm"], "eV": ["eV"], "mixed": ["1/cm", "eV", "int"]}[uni]
+    built = built_leaves(tree)
+    units = leaf_units(case, len(built))
+    ustr = ",".join(units)
+    special = sorted(set(ftype_of(cls, n) for n in built
+                         if n in EXT[cls] or n in OPTIONAL[cls]))
+    suffix = "/with-" + "+".join(special) if special else ""
+
+    def done(res):
+        res["violations"] = _finish(viol, suffix)
+        return res
+
+    if case.get("optional"):
+        # a component type that cannot be constructed at all has nothing to add
+        try:
+            for n in set(built):
+                ledger(cls, n, "int", ta)
+        except Exception as e:
+            return {"nontrivial": False, "violations": [],
+                    "outcome": ["component-type-unavailable", cls, tree_str(tree), ustr,
+                                type(e).__name__]}
 
     def unit_of(i):
-        return units[i % len(units)]
+        return units[i]
     lv = leaves_of(tree)
     lv = [x for x in lv if x != "self"]
     if tree[0] == "+=" and tree[2] == "self":
         lv = leaves_of(tree[1]) * 2
-    # ledger: individually built components
-    comps = [make_leaf(cls, n, "1/cm", ta) for n in lv]
-    exp_data = sum((numpy.asarray(c.data) for c in comps[1:]), numpy.array(comps[0].data, copy=True))
-    exp_lamb = sum(float(c.lamb) for c in comps)
-    temps = set(float(getattr(c, "temperature", -1)) for c in comps) if cls == "cf" else {300.0}
+    # ledger (2): individually built components
+    comps = [ledger(cls, n, "1/cm", ta) for n in lv]
+    exp_data = sum((c.data for c in comps[1:]), numpy.array(comps[0].data, copy=True))
+    exp_lamb = sum(c.lamb for c in comps)
+    temps = set(c.temperature for c in comps) if cls == "cf" else {300.0}
     variant = "%s/add-in-%s" % (cls, addctx or "no-context")
     mixed = len(set(CF_LEAVES[n]["ftype"] if isinstance(CF_LEAVES.get(n), dict) else n
                     for n in lv)) > 1 if cls == "cf" else len(set(lv)) > 1
+    made = []
     try:
-        res = build(cls, tree, unit_of, ta, addctx, viol, [0])
+        res, idx = build(cls, tree, unit_of, ta, addctx, viol, [0], made)
     except Refused as e:
         if cls == "cf" and len(temps) > 1:
-            return {"nontrivial": True, "outcome": ["refused-different-T", tree_str(tree)],
-                    "violations": _dedup(viol)}
+            return done({"nontrivial": True, "outcome": ["refused-different-T", tree_str(tree)]})
         viol.append(("admissible-addition-refused/%s" % variant,
                      "%s raised: %s" % (tree_str(tree), e), None))
-        return {"nontrivial": True, "outcome": ["refused", tree_str(tree)],
-                "violations": _dedup(viol)}
+        return done({"nontrivial": True, "outcome": ["refused", tree_str(tree), ustr]})
     if cls == "cf" and len(temps) > 1:
         viol.append(("different-temperatures-accepted/%s" % variant,
                      "%s was accepted although temperatures %s differ"
                      % (tree_str(tree), sorted(temps)), None))
-        return {"nontrivial": True, "outcome": ["accepted-different-T", tree_str(tree)],
-                "violations": _dedup(viol)}
+        return done({"nontrivial": True, "outcome": ["accepted-different-T", tree_str(tree)]})
     kind = "mixed-types" if mixed else "same-type"
+    where = "%s [leaves built in %s]" % (tree_str(tree), ustr)
+    # ledger (1): the operands exactly as they were constructed in this case
+    own_data = sum((made[i][2] for i in idx[1:]), numpy.array(made[idx[0]][2], copy=True))
+    own_lamb = sum(made[i][3] for i in idx)
+    ok, err = approx(res.data, own_data, TOL)
+    if not ok:
+        viol.append(("data-not-sum-of-operands-as-constructed/%s/%s" % (variant, kind),
+                     "%s: data differs from the sum of the data the operands had when they "
+                     "were constructed by %g (scale %g)"
+                     % (where, err, float(numpy.max(numpy.abs(own_data)))), {"err": err}))
+    if abs(float(res.lamb) - own_lamb) > 1e-10 * abs(own_lamb):
+        viol.append(("reorganisation-energy-not-sum-of-operands-as-constructed/%s" % variant,
+                     "%s: lamb %r, sum of the operands' %r" % (where, float(res.lamb), own_lamb),
+                     None))
     ok, err = approx(res.data, exp_data, TOL)
     if not ok:
         viol.append(("data-not-sum-of-components/%s/%s" % (variant, kind),
                      "%s: data differs from the sum of the components' data by %g (scale %g)"
-                     % (tree_str(tree), err, float(numpy.max(numpy.abs(exp_data)))),
+                     % (where, err, float(numpy.max(numpy.abs(exp_data)))),
                      {"err": err}))
     if abs(float(res.lamb) - exp_lamb) > 1e-10 * abs(exp_lamb):
         viol.append(("reorganisation-energy-not-additive/%s" % variant,
-                     "%s: lamb %r, sum of components %r" % (tree_str(tree), float(res.lamb), exp_lamb),
+                     "%s: lamb %r, sum of components %r" % (where, float(res.lamb), exp_lamb),
                      None))
     with qr.energy_units("1/cm"):
         declared = float(res.get_reorganization_energy())
-    decl_exp = sum(15.0 if n == "v" else (CF_LEAVES if cls == "cf" else SD_LEAVES)[n]["reorg"]
-                   for n in lv)
+    decl_exp = sum(15.0 if n == "v" else spec_of(cls, n)["reorg"] for n in lv)
     if abs(declared - decl_exp) > 1e-6 * decl_exp:
         viol.append(("declared-reorganisation-energy/%s" % variant,
                      "%s: get_reorganization_energy() = %r 1/cm, declared sum %r"
-                     % (tree_str(tree), declared, decl_exp), None))
+                     % (where, declared, decl_exp), None))
     if len(res.params) != len(lv):
         viol.append(("component-list-length/%s" % variant,
-                     "%s: %d components recorded, %d added" % (tree_str(tree), len(res.params),
+                     "%s: %d components recorded, %d added" % (where, len(res.params),
                                                                len(lv)), None))
     else:
         got = sorted((p["ftype"], round(float(p["reorg"]), 12)) for p in res.params)
         exp = sorted((p["ftype"], round(float(p["reorg"]), 12)) for c in comps for p in c.params)
         if got != exp:
             viol.append(("component-list-content/%s" % variant,
-                         "%s: recorded components %r, added %r" % (tree_str(tree), got, exp), None))
+                         "%s: recorded components %r, added %r" % (where, got, exp), None))
     if cls == "cf" and float(res.temperature) != 300.0:
         viol.append(("temperature-of-sum/%s" % variant, "temperature %r" % res.temperature, None))
     # the component list regenerates the same function (carries consistent parameters)
     if "v" not in lv:
-        try:
-            cp = res.copy()
+        own_now = numpy.array(res.data, copy=True)
+        for cctx in ([None, addctx] if addctx else [None]):
+            ctag = "" if cctx is None else "/copy-in-%s" % cctx
+            try:
+                if cctx:
+                    with qr.energy_units(cctx):
+                        cp = res.copy()
+                else:
+                    cp = res.copy()
+            except Exception as e:
+                viol.append(("rebuild-from-components-raises/%s%s" % (cls, ctag),
+                             str(e)[:100], None))
+                continue
             ok, err = approx(cp.data, exp_data, TOL)
             if not ok:
-                viol.append(("rebuild-from-components-differs/%s/%s" % (cls, kind),
+                viol.append(("rebuild-from-components-differs/%s/%s%s" % (cls, kind, ctag),
                              "%s: a copy rebuilt from the recorded components differs from the "
-                             "sum by %g" % (tree_str(tree), err), {"err": err}))
-        except Exception as e:
-            viol.append(("rebuild-from-components-raises/%s" % cls, str(e)[:100], None))
+                             "sum by %g" % (where, err), {"err": err}))
+            ok, err = approx(cp.data, own_now, TOL)
+            if not ok:
+                viol.append(("copy-differs-from-original/%s/%s%s" % (cls, kind, ctag),
+                             "%s: copy() differs from the object it copies by %g (scale %g)"
+                             % (where, err, float(numpy.max(numpy.abs(own_now)))),
+                             {"err": err}))
+            if abs(float(cp.lamb) - float(res.lamb)) > 1e-10 * abs(float(res.lamb)):
+                viol.append(("copy-reorganisation-energy-differs/%s%s" % (cls, ctag),
+                             "%s: copy().lamb %r, original %r"
+                             % (where, float(cp.lamb), float(res.lamb)), None))
     # measured vs declared reorganisation energy, parities of the FT parts (analytic only)
     if cls == "cf" and "v" not in lv and case.get("deep"):
         with qr.energy_units("1/cm"):
@@ -243,17 +435,20 @@ def eval_case(case):
                     viol.append(("ft-part-parity/%s/%s" % (nm, kind),
                                  "%s: %s FT part deviates from %s parity by %g (scale %g)"
                                  % (tree_str(tree), nm, nm, dev, sc), None))
-    return {"nontrivial": len(lv) >= 2, "violations": _dedup(viol),
-            "outcome": [tree_str(tree), uni, addctx, round(float(res.lamb), 9),
-                        round(float(numpy.abs(numpy.asarray(res.data)).sum()), 9)]}
+    return done({"nontrivial": len(lv) >= 2,
+                 "outcome": [tree_str(tree), ustr, addctx, round(float(res.lamb), 9),
+                             round(float(numpy.abs(numpy.asarray(res.data)).sum()), 9)]})
 
 
-def _dedup(viol):
+def _finish(viol, suffix):
+    """One violation per key; cases containing a component of the extended / optional ftypes
+    carry those ftypes in every result-level key (per-component keys name the ftype anyway)."""
     seen, out = set(), []
     for v in viol:
-        if v[0] not in seen:
-            seen.add(v[0])
-            out.append(v)
+        key = v[0] if v[0].startswith("component-") else v[0] + suffix
+        if key not in seen:
+            seen.add(key)
+            out.append((key,) + tuple(v[1:]))
     return out
 
 
@@ -286,38 +481,95 @@ def admissible(tree):
     return admissible(l) and (r == "self" or admissible(r))
 
 
+def unit_patterns(tier, n):
+    """Construction units of the n built leaves (see the module docstring)."""
+    U = UNITS[tier]
+    if n <= 2:
+        pats = [list(c) for c in itertools.product(U, repeat=n)]
+    else:
+        pats = [[u] * n for u in U]
+        pats += [[U[(r + i) % len(U)] for i in range(n)] for r in range(len(U))]
+        pats += [[LEGACY_PATTERNS["mixed"][i % 3] for i in range(n)]]
+        if tier == "thorough" and n == 3:
+            pats += [list(c) for c in itertools.product(U[:3], repeat=n)]
+    out = []
+    for p_ in pats:
+        if p_ not in out:
+            out.append(p_)
+    return out
+
+
+def expressions(alpha, kmax, tier):
+    """All '+' trees with <= kmax leaves and all in-place chains over the alphabet."""
+    trees = []
+    for n in range(1, kmax + 1):
+        trees += [t for t in all_trees(alpha, n)]
+    trees = [t for t in trees if admissible(t)]
+    # in-place chains: x += y ; (x += y) += z ; x += x
+    base = [t for t in trees if len(leaves_of(t)) <= kmax - 1]
+    inpl = []
+    for x in base:
+        for y in base:
+            if len(leaves_of(x)) + len(leaves_of(y)) <= kmax:
+                inpl.append(["+=", x, y])
+        if len(leaves_of(x)) * 2 <= kmax + 1:
+            inpl.append(["+=", x, "self"])
+    inpl2 = []
+    if tier == "thorough":
+        for t in inpl:
+            if t[2] != "self" and len(leaves_of(t)) <= kmax - 1:
+                for y in alpha:
+                    inpl2.append(["+=", t, y])
+    inpl = [t for t in inpl + inpl2 if admissible(t)]
+    return trees + inpl
+
+
+def constructible(cls, name):
+    """Can the component be built at all (in internal units) on the tree under test?"""
+    qr = isolation.qr()
+    try:
+        with isolation.quiet():
+            make_leaf(cls, name, "int", qr.TimeAxis(0.0, NT, DT))
+        return True
+    except Exception:
+        return False
+    finally:
+        isolation.reset_manager()
+
+
 def cases(tier):
     kmax = 3 if tier == "quick" else 4
     cs = []
-    for cls, alpha in (("cf", ["a", "b", "c", "v"]), ("sd", ["a", "b", "c"])):
-        trees = []
-        for n in range(1, kmax + 1):
-            trees += [t for t in all_trees(alpha, n)]
-        trees = [t for t in trees if admissible(t)]
-        # in-place chains: x += y ; (x += y) += z ; x += x
-        base = [t for t in trees if len(leaves_of(t)) <= kmax - 1]
-        inpl = []
-        for x in base:
-            for y in base:
-                if len(leaves_of(x)) + len(leaves_of(y)) <= kmax:
-                    inpl.append(["+=", x, y])
-            if len(leaves_of(x)) * 2 <= kmax + 1:
-                inpl.append(["+=", x, "self"])
-        inpl2 = []
-        if tier == "thorough":
-            for t in inpl:
-                if t[2] != "self" and len(leaves_of(t)) <= kmax - 1:
-                    for y in alpha:
-                        inpl2.append(["+=", t, y])
-        inpl = [t for t in inpl + inpl2 if admissible(t)]
-        for t in trees + inpl:
+    for cls in ("cf", "sd"):
+        core, full = CORE[cls], CORE[cls] + EXT[cls]
+        # the extended ftypes take part in everything one level below the bound
+        exprs = expressions(full, kmax - 1, tier)
+        have = set(tree_str(t) for t in exprs)
+        exprs += [t for t in expressions(core, kmax, tier) if tree_str(t) not in have]
+        # optional ftype variants that CAN be constructed on the tree under test join the
+        # alphabet up to two leaves (complete per-leaf product with every other ftype)
+        avail = [x for x in OPTIONAL[cls] if constructible(cls, x)]
+        if avail:
+            have = set(tree_str(t) for t in exprs)
+            exprs += [t for t in expressions(full + avail, 2, tier) if tree_str(t) not in have]
+        for t in exprs:
             n = len(leaves_of(t))
-            for uni in (["1/cm", "mixed"] if tier == "quick" else ["int", "1/cm", "eV", "mixed"]):
+            for pat in unit_patterns(tier, len(built_leaves(t))):
                 for addctx in (None, "1/cm"):
                     if n == 1 and addctx:
                         continue
-                    cs.append({"cls": cls, "tree": t, "leaf_units": uni, "add_ctx": addctx,
-                               "deep": uni == "1/cm" and addctx is None})
+                    deep = (addctx is None and all(u == "1/cm" for u in pat)
+                            and all(x in ("a", "b", "c", "self") for x in leaves_of(t)))
+                    cs.append({"cls": cls, "tree": t, "leaf_units": pat, "add_ctx": addctx,
+                               "deep": deep})
+        # ftype variants the reference tree cannot construct: probe x, x+x, x+=x
+        for x in OPTIONAL[cls]:
+            if x in avail:
+                continue
+            for t in (x, ["+", x, x], ["+=", x, "self"]):
+                for u in UNITS[tier]:
+                    cs.append({"cls": cls, "tree": t, "leaf_units": [u], "add_ctx": None,
+                               "optional": True})
         # different temperatures: every position of the odd leaf in trees up to 3 leaves
         if cls == "cf":
             for n in (2, 3):
@@ -335,13 +587,20 @@ def cases(tier):
 
 def run(run):
     run.rule = ("every binary '+' tree (all groupings, all orders, leaves with repetition) and "
-                "every in-place chain over the leaf alphabet, x units used to build the leaves x "
-                "units context of the additions, for CorrelationFunction and SpectralDensity; "
-                "non-trivial = at least two leaves")
+                "every in-place chain over the leaf alphabet (every ftype that can be built from "
+                "parameters) x construction unit of every leaf (complete per-leaf product up to "
+                "2 leaves, uniform + all rotations above) x units context of the additions, for "
+                "CorrelationFunction and SpectralDensity; non-trivial = at least two leaves")
     run.assumptions = ["components' own data (each built separately by the library) are the "
                        "additivity ledger; the analytic formulas themselves belong to C06",
                        "value-defined functions only as right-hand operands (as the property says)",
                        "temperature refusal is checked for correlation functions only (a spectral "
-                       "density does not depend on temperature)"]
-    run.bounds = {"max_leaves": 3 if run.tier == "quick" else 4, "time_axis": [NT, DT]}
+                       "density does not depend on temperature)",
+                       "measured reorganisation energy / FT parity only for the ftypes the "
+                       "library calls analytical (OverdampedBrownian, -HighTemperature)",
+                       "ftype variants that cannot be constructed at all (in internal units) are "
+                       "probed only: %r" % OPTIONAL]
+    run.bounds = {"max_leaves": 3 if run.tier == "quick" else 4, "time_axis": [NT, DT],
+                  "max_leaves_extended_ftypes": 2 if run.tier == "quick" else 3,
+                  "construction_units": UNITS[run.tier]}
     run_grid(run, cases(run.tier), eval_case, cap_s=55 if run.tier == "quick" else 720)
